@@ -1,5 +1,201 @@
+// fast_fft.rs hook: access to the private twiddle tables / n^-1 constants for engines S and R, Kani harnesses for the
+// tables (C11: Z_q tables; C13: complex table; U32 tables as supporting evidence).
 #![allow(dead_code, unused_imports)]
+use super::*;
+use crate::inverse::Inverse;
+
+pub(crate) fn felt_fwd(i: usize) -> Felt { FELT_BITREVERSED_POWERS_1024[i] }
+pub(crate) fn felt_inv(i: usize) -> Felt { FELT_BITREVERSED_POWERS_INVERSE_1024[i] }
+pub(crate) fn felt_ninv(n: usize) -> Felt {
+    match n {
+        1 => FELT_NINV_1, 2 => FELT_NINV_2, 4 => FELT_NINV_4, 8 => FELT_NINV_8, 16 => FELT_NINV_16, 32 => FELT_NINV_32,
+        64 => FELT_NINV_64, 128 => FELT_NINV_128, 256 => FELT_NINV_256, 512 => FELT_NINV_512, 1024 => FELT_NINV_1024,
+        _ => panic!("no such constant"),
+    }
+}
+pub(crate) fn u32_ninv(n: usize) -> U32Field {
+    match n {
+        2 => U32_FIELD_NINV_2, 4 => U32_FIELD_NINV_4, 8 => U32_FIELD_NINV_8, 16 => U32_FIELD_NINV_16, 32 => U32_FIELD_NINV_32,
+        64 => U32_FIELD_NINV_64, 128 => U32_FIELD_NINV_128, 256 => U32_FIELD_NINV_256, 512 => U32_FIELD_NINV_512, 1024 => U32_FIELD_NINV_1024,
+        _ => panic!("no such constant"),
+    }
+}
+
+/// (forward table, inverse table, modulus) as plain integers
 #[cfg(not(kani))]
-pub(crate) fn dispatch(_a: &[String]) -> Option<String> {
-    None
+pub(crate) fn tables_i64(field: &str) -> (Vec<i64>, Vec<i64>, i64) {
+    match field {
+        "felt" => (
+            FELT_BITREVERSED_POWERS_1024.iter().map(|f| f.value() as i64).collect(),
+            FELT_BITREVERSED_POWERS_INVERSE_1024.iter().map(|f| f.value() as i64).collect(),
+            12289,
+        ),
+        "u32" => (
+            U32_FIELD_PSI_REV_1024.iter().map(|f| f.0 as i64).collect(),
+            U32_FIELD_PSI_REV_INV_1024.iter().map(|f| f.0 as i64).collect(),
+            1073754113,
+        ),
+        _ => panic!("field"),
+    }
+}
+#[cfg(not(kani))]
+pub(crate) fn ninv_i64(field: &str, n: usize) -> i64 {
+    match field {
+        "felt" => felt_ninv(n).value() as i64,
+        "u32" => if n == 1 { 1 } else { u32_ninv(n).0 as i64 },
+        _ => panic!("field"),
+    }
+}
+
+#[cfg(not(kani))]
+pub(crate) fn dispatch(a: &[String]) -> Option<String> {
+    let ints = |s: &str| -> Vec<i64> { if s == "-" { vec![] } else { s.split(',').map(|x| x.parse().unwrap()).collect() } };
+    let poly = |s: &str| Polynomial::new(ints(s).into_iter().map(|x| Felt::new(x as i16)).collect::<Vec<_>>());
+    let show = |p: &Polynomial<Felt>| p.coefficients.iter().map(|f| f.value().to_string()).collect::<Vec<_>>().join(",");
+    match a[0].as_str() {
+        "ntt_roundtrip" => Some(show(&poly(&a[1]).fft().ifft())),
+        "ntt_fwd" => Some(show(&poly(&a[1]).fft())),
+        "ntt_inv" => Some(show(&poly(&a[1]).ifft())),
+        "ntt_mul" => Some(show(&poly(&a[1]).fft().hadamard_mul(&poly(&a[2]).fft()).ifft())),
+        "ntt_split_merge" => {
+            let p = poly(&a[1]);
+            let (x, y) = p.split_fft();
+            Some(show(&Polynomial::<Felt>::merge_fft(&x, &y)))
+        }
+        "felt_table" => {
+            let i: usize = a[2].parse().unwrap();
+            Some(match a[1].as_str() {
+                "fwd" => felt_fwd(i).value().to_string(),
+                "inv" => felt_inv(i).value().to_string(),
+                "ninv" => felt_ninv(i).value().to_string(),
+                _ => "?".to_string(),
+            })
+        }
+        // complex_ops <n>: max errors of round trip, product (vs schoolbook negacyclic) and merge(split(.)) on fixed vectors
+        "complex_ops" => {
+            let n: usize = a[1].parse().unwrap();
+            let av: Vec<f64> = (0..n).map(|i| ((i * 37 + 11) % 101) as f64 - 50.0).collect();
+            let bv: Vec<f64> = (0..n).map(|i| ((i * 53 + 7) % 23) as f64 - 11.0).collect();
+            let pa = Polynomial::new(av.iter().map(|x| Complex64::new(*x, 0.0)).collect::<Vec<_>>());
+            let pb = Polynomial::new(bv.iter().map(|x| Complex64::new(*x, 0.0)).collect::<Vec<_>>());
+            let fa = pa.fft();
+            let rt = fa.ifft();
+            let e_rt = rt.coefficients.iter().zip(av.iter()).map(|(c, x)| (c.re - x).abs().max(c.im.abs())).fold(0.0, f64::max);
+            let prod = fa.hadamard_mul(&pb.fft()).ifft();
+            let mut want = vec![0.0f64; n];
+            for i in 0..n { for j in 0..n { let k = i + j; if k < n { want[k] += av[i] * bv[j]; } else { want[k - n] -= av[i] * bv[j]; } } }
+            let e_pr = prod.coefficients.iter().zip(want.iter()).map(|(c, x)| (c.re - x).abs().max(c.im.abs())).fold(0.0, f64::max);
+            let (s0, s1) = fa.split_fft();
+            let mg = Polynomial::<Complex64>::merge_fft(&s0, &s1);
+            let e_sm = mg.coefficients.iter().zip(fa.coefficients.iter()).map(|(c, x)| (c - x).norm()).fold(0.0, f64::max);
+            // split(fft(a)) = (fft(a_even), fft(a_odd))
+            let ev = Polynomial::new(av.iter().step_by(2).map(|x| Complex64::new(*x, 0.0)).collect::<Vec<_>>()).fft();
+            let od = Polynomial::new(av.iter().skip(1).step_by(2).map(|x| Complex64::new(*x, 0.0)).collect::<Vec<_>>()).fft();
+            let e_sp = s0.coefficients.iter().zip(ev.coefficients.iter()).chain(s1.coefficients.iter().zip(od.coefficients.iter())).map(|(c, x)| (c - x).norm()).fold(0.0, f64::max);
+            Some(format!("{:e},{:e},{:e},{:e}", e_rt, e_pr, e_sm, e_sp))
+        }
+        "complex_table" => {
+            let i: usize = a[1].parse().unwrap();
+            Some(format!("{:e},{:e}", COMPLEX_BITREVERSED_POWERS_1024[i].re, COMPLEX_BITREVERSED_POWERS_1024[i].im))
+        }
+        // symfield <kind> <field> <n> <j> <out path>
+        "symfield" => {
+            let s = crate::verif_hook::symfield::emit(&a[1], &a[2], a[3].parse().unwrap(), a[4].parse().unwrap());
+            std::fs::write(&a[5], s).unwrap();
+            Some("written".to_string())
+        }
+        "symbatch" => {
+            let s = crate::verif_hook::symfield::emit_batch(a[1].parse().unwrap(), a[2].parse().unwrap());
+            std::fs::write(&a[3], s).unwrap();
+            Some("written".to_string())
+        }
+        _ => None,
+    }
+}
+
+#[cfg(kani)]
+mod harnesses {
+    use super::*;
+
+    fn pow_felt(base: Felt, mut e: usize) -> Felt {
+        // 11-bit square and multiply on the (C12-proved) field multiply
+        let mut acc = Felt::new(1);
+        let mut b = base;
+        let mut i = 0;
+        while i < 11 {
+            if e & 1 == 1 { acc = acc * b; }
+            b = b * b;
+            e >>= 1;
+            i += 1;
+        }
+        acc
+    }
+    fn bitrev10(i: usize) -> usize {
+        let mut r = 0usize;
+        let mut k = 0;
+        while k < 10 {
+            r |= ((i >> k) & 1) << (9 - k);
+            k += 1;
+        }
+        r
+    }
+
+    /// FWD[i] = psi^bitrev10(i) for every i, with psi := FWD[512] a primitive 2048-th root (psi^1024 = -1)
+    #[kani::proof]
+    #[kani::unwind(12)]
+    fn c11_table_fwd() {
+        let i: usize = kani::any();
+        kani::assume(i < 1024);
+        let psi = felt_fwd(512);
+        assert!(psi.value() as i64 != 0);
+        assert!(pow_felt(psi, 1024).value() == 12288);
+        assert!(felt_fwd(i) == pow_felt(psi, bitrev10(i)));
+        assert!((felt_fwd(i).value() as u32) < 12289);
+        kani::cover!(i == 1023);
+        kani::cover!(i == 0);
+    }
+
+    /// INV[i] * FWD[i] = 1 for every i
+    #[kani::proof]
+    fn c11_table_inv() {
+        let i: usize = kani::any();
+        kani::assume(i < 1024);
+        assert!((felt_inv(i) * felt_fwd(i)).value() == 1);
+        assert!((felt_inv(i).value() as u32) < 12289);
+        kani::cover!(i == 1023);
+    }
+
+    /// n * NINV_n = 1 for the eleven constants
+    #[kani::proof]
+    fn c11_ninv() {
+        let k: usize = kani::any();
+        kani::assume(k <= 10);
+        let n = 1usize << k;
+        assert!(((n as u64) * (felt_ninv(n).value() as u64)) % 12289 == 1);
+        assert!((felt_ninv(n).value() as u32) < 12289);
+        kani::cover!(k == 10);
+        kani::cover!(k == 0);
+    }
+
+    /// complex table: T[0] = 1, T[1] = i, T[2j]^2 = T[j], T[2j+1] = i * T[2j], first-quadrant rule — pins every entry
+    /// to exp(i*pi*bitrev(j)/1024) within about 1e-14 without sin/cos in the solver
+    #[kani::proof]
+    fn c13_complex_table() {
+        let t = &COMPLEX_BITREVERSED_POWERS_1024;
+        assert!(t[0].re == 1.0 && t[0].im == 0.0);
+        assert!(t[1].re.abs() <= 1e-15 && t[1].im == 1.0);
+        let j: usize = kani::any();
+        kani::assume(j >= 1 && j < 512);
+        let a = t[2 * j];
+        let b = t[2 * j + 1];
+        let p = t[j];
+        let re = a.re * a.re - a.im * a.im;
+        let im = 2.0 * a.re * a.im;
+        let tol = 1e-15;
+        assert!((re - p.re).abs() <= tol && (im - p.im).abs() <= tol);
+        assert!(a.re > 0.0 && a.im >= 0.0);
+        assert!((b.re + a.im).abs() <= tol && (b.im - a.re).abs() <= tol);
+        kani::cover!(j == 511);
+        kani::cover!(j == 1);
+    }
 }
